@@ -404,67 +404,59 @@ LeftNT(f) == CHOOSE k \in 1..Len(f) : IsNT(f[k]) /\ \A j \in 1..(k - 1) : ~IsNT(
 
 Rewrite(f, k, rhs) == SubSeq(f, 1, k - 1) \o rhs \o SubSeq(f, k + 1, Len(f))
 
-Fits(f) == FormMin(f) <= MaxTokens
-
 Finish(f) == IF HasNT(f) THEN "derive" ELSE "done"
 
-Derive(class) ==
-    /\ phase = "derive"
-    /\ LET k == LeftNT(form) IN
-       /\ form[k] \in class
-       /\ \E rhs \in Prods[form[k]] :
-            LET f2 == Rewrite(form, k, rhs) IN
-            /\ Fits(f2)
-            /\ (rhs = <<>> /\ form[k] \in {"Body", "File"}) => Len(form) > MinTokens
-            /\ form' = f2
-            /\ phase' = Finish(f2)
+\* One derivation step at the leftmost non-terminal nt = form[k]; `rest` is the
+\* minimal yield of everything but nt (computed once per state in Next).
+Derive(class, k, nt, rest) ==
+    /\ nt \in class
+    /\ \E rhs \in Prods[nt] :
+         /\ rest + SumLen(rhs, MinLen) <= MaxTokens
+         /\ (rhs = <<>> /\ nt \in {"Body", "File"}) => Len(form) > MinTokens
+         /\ form' = Rewrite(form, k, rhs)
+         /\ phase' = Finish(form')
     /\ UNCHANGED dmg
 
-DeriveDecl == Derive(DeclNT)
-DeriveStmt == Derive(StmtNT)
-DeriveExpr == Derive(ExprNT)
-DeriveType == Derive(TypeNT)
+DeriveDecl(k, nt, rest) == Derive(DeclNT, k, nt, rest)
+DeriveStmt(k, nt, rest) == Derive(StmtNT, k, nt, rest)
+DeriveExpr(k, nt, rest) == Derive(ExprNT, k, nt, rest)
+DeriveType(k, nt, rest) == Derive(TypeNT, k, nt, rest)
 
 CanDamage(kind) == kind \in DamageKinds /\ Len(dmg) < MaxDamage
 
 \* Replace an operand (or any sub-derivation) by nothing.
 VoidNT == {"OU32", "OBool", "OU8", "EU32", "EBool", "EU8", "EU64", "ESlice", "EStatus", "Type", "Block", "Num",
            "LU32", "RetVal", "ItN", "Fields", "ConstVal", "FBody", "FName", "Cmp", "BinOp", "OpEq"}
-Void ==
-    /\ phase = "derive" /\ CanDamage("void")
-    /\ LET k == LeftNT(form) IN
-       /\ form[k] \in VoidNT
-       /\ form' = Rewrite(form, k, <<>>)
-       /\ phase' = Finish(form')
-       /\ dmg' = Append(dmg, "void " \o form[k])
+Void(k, nt, rest) ==
+    /\ CanDamage("void")
+    /\ nt \in VoidNT
+    /\ form' = Rewrite(form, k, <<>>)
+    /\ phase' = Finish(form')
+    /\ dmg' = Append(dmg, "void " \o nt)
 
 \* Put a sub-derivation of a different non-terminal in.
 SpliceNT == {"EU32", "EBool", "EU8", "ESlice", "EStatus", "EU64", "Type", "Stmt", "Block", "Decl", "Field", "ConstVal",
              "LoopAsserts", "FuncAsserts", "Stmts", "File"}
-Splice ==
-    /\ phase = "derive" /\ CanDamage("splice")
-    /\ LET k == LeftNT(form) IN
-       /\ form[k] \in SpliceNT
-       /\ \E other \in SpliceNT \ {form[k]} :
-            LET f2 == Rewrite(form, k, <<other>>) IN
-            /\ Fits(f2)
-            /\ form' = f2
-            /\ phase' = "derive"
-            /\ dmg' = Append(dmg, "splice " \o form[k] \o "<-" \o other)
+Splice(k, nt, rest) ==
+    /\ CanDamage("splice")
+    /\ nt \in SpliceNT
+    /\ \E other \in SpliceNT \ {nt} :
+         /\ rest + MinLen[other] <= MaxTokens
+         /\ form' = Rewrite(form, k, <<other>>)
+         /\ phase' = "derive"
+         /\ dmg' = Append(dmg, "splice " \o nt \o "<-" \o other)
 
 \* Nest N deep.  The core is the non-terminal itself (derived afterwards).
-Nest ==
-    /\ phase = "derive" /\ CanDamage("nest")
-    /\ LET k == LeftNT(form) IN
-       \E kind \in NestNames, n \in NestDepths :
-            /\ form[k] \in NestKinds[kind].nts
-            /\ LET core == IF n >= DeepFrom THEN NestKinds[kind].core
-                           ELSE IF form[k] \in {"ElsePart", "Fields"} THEN <<>> ELSE <<form[k]>>
-                   f2 == Rewrite(form, k, <<NestTok("open", kind, n)>> \o core \o <<NestTok("close", kind, n)>>)
-               IN /\ Fits(f2)
-                  /\ form' = f2
-                  /\ phase' = Finish(f2)
-                  /\ dmg' = Append(dmg, "nest " \o kind \o " " \o ToString(n))
+Nest(k, nt, rest) ==
+    /\ CanDamage("nest")
+    /\ \E kind \in NestNames, n \in NestDepths :
+         /\ nt \in NestKinds[kind].nts
+         /\ LET core == IF n >= DeepFrom THEN NestKinds[kind].core
+                        ELSE IF nt \in {"ElsePart", "Fields"} THEN <<>> ELSE <<nt>>
+            IN /\ rest + 2 + SumLen(core, MinLen) <= MaxTokens
+               /\ form' = Rewrite(form, k, <<NestTok("open", kind, n)>> \o core \o <<NestTok("close", kind, n)>>)
+               /\ phase' = Finish(form')
+               /\ dmg' = Append(dmg, "nest " \o kind \o " " \o ToString(n))
 
 \* Token-level damage of a finished sequence.
 Drop ==
@@ -498,8 +490,12 @@ Unbalance ==
     /\ UNCHANGED phase
 
 Next ==
-    \/ DeriveDecl \/ DeriveStmt \/ DeriveExpr \/ DeriveType
-    \/ Void \/ Splice \/ Nest
+    \/ /\ phase = "derive"
+       /\ LET k == LeftNT(form)
+              nt == form[k]
+              rest == FormMin(form) - MinLen[nt]
+          IN \/ DeriveDecl(k, nt, rest) \/ DeriveStmt(k, nt, rest) \/ DeriveExpr(k, nt, rest) \/ DeriveType(k, nt, rest)
+             \/ Void(k, nt, rest) \/ Splice(k, nt, rest) \/ Nest(k, nt, rest)
     \/ Drop \/ Dup \/ Swap \/ Unbalance
 
 Spec == Init /\ [][Next]_vars
